@@ -519,3 +519,14 @@ Proof.
       pose proof (number_renamer_no_shadow_all fuel st reserved _ _ names A W v' Hv' i j) as D.
       rewrite !NoLinks in D. apply D; auto; apply Sv; assumption.
 Qed.
+
+Lemma parse_forest_plain_ns prog i :
+  let '(_, st) := parse_forest prog in ns_plain (sy_ns (getsym st i)).
+Proof.
+  unfold parse_forest, build_sk. rewrite skel_closed.
+  destruct (number_sk [] (erase (closed_psk prog)) 0) as [[m st] n'] eqn:B.
+  pose proof (number_plain _ (closed_plain prog) _ _ _ _ _ B) as F.
+  unfold getsym. destruct (nth_in_or_default i st dummy_sym) as [I|E].
+  - rewrite Forall_forall in F. apply F. exact I.
+  - rewrite E. right. reflexivity.
+Qed.
